@@ -55,23 +55,53 @@ func vhC09Val() (interface{}, bool, string) {
 // VH_C09_Truth: an if/elseif/else chain renders exactly one branch: the first truthy one.
 func VH_C09_Truth() {
 	v, tv, kv := vhC09Val()
-	w, tw, kw := vhC09Val()
+	var w interface{}
+	tw, kw := false, "none"
+	switch symChoice(4) { // the second condition: fewer types (every type is covered as first condition)
+	case 0:
+		b := symBool()
+		w, tw, kw = b, b, "bool"
+	case 1:
+		i := symInt()
+		w, tw, kw = i, i != 0, "int"
+	case 2:
+		s := symStringIn(symChoice(2), "a0")
+		w, tw, kw = s, s != "", "string"
+	case 3:
+		w, tw, kw = nil, false, "nil"
+	}
 	symTag("types:" + kv + "," + kw)
 	shape := symChoice(4)
+	// the body of each branch: marker text, nothing at all, a comment only, or only a set
+	bodyOf := func(mark string) (string, string) {
+		switch symChoice(4) {
+		case 0:
+			return mark, mark
+		case 1:
+			return "", ""
+		case 2:
+			return "{# c #}", ""
+		default:
+			return "{% set q = 1 %}", ""
+		}
+	}
+	bT, oT := bodyOf("T")
+	bE, oE := "E", "E"
+	bF, oF := bodyOf("F")
 	src := []string{
-		"{% if v %}T{% endif %}",
-		"{% if v %}T{% else %}F{% endif %}",
-		"{% if v %}T{% elseif w %}E{% endif %}",
-		"{% if v %}T{% elseif w %}E{% else %}F{% endif %}",
+		"{% if v %}" + bT + "{% endif %}",
+		"{% if v %}" + bT + "{% else %}" + bF + "{% endif %}",
+		"{% if v %}" + bT + "{% elseif w %}" + bE + "{% endif %}",
+		"{% if v %}" + bT + "{% elseif w %}" + bE + "{% else %}" + bF + "{% endif %}",
 	}[shape]
 	want := ""
 	switch {
 	case tv:
-		want = "T"
+		want = oT
 	case shape >= 2 && tw:
-		want = "E"
+		want = oE
 	case shape == 1 || shape == 3:
-		want = "F"
+		want = oF
 	}
 	out, err := vhR("["+src+"]", map[string]interface{}{"v": v, "w": w})
 	symCover("rendered")
